@@ -1,6 +1,6 @@
 """C01 - rate() equals the published Weng-Lin posterior (reference-model monitor)."""
 from .. import gen
-from ..rateprobe import run_case, reference, updated, common_buckets, exc_detail
+from ..rateprobe import run_case, reference, updated, common_buckets, exc_detail, aim_at_floor_window
 from ..util import MODEL_NAMES, KIND
 
 PROPERTY = "C01"
@@ -29,6 +29,11 @@ def generate(ctx):
     n = ctx.budget(12000, 800000)
     for _ in range(n):
         case, meta = gen.gen_case(ctx.rng)
+        if ctx.rng.random() < 0.06:
+            aimed = aim_at_floor_window(case, ctx.rng)
+            if aimed is not None:
+                case = aimed
+                meta["aimed_at_floor_window"] = True
         yield "game", dict(case=case, meta=meta)
     # exhaustive weak orders on base games (sharded by base game index)
     nbase = 2 if ctx.tier == "quick" else 80
@@ -74,7 +79,10 @@ def probe_game(ctx, payload):
             if info[k_]:
                 ctx.bucket("tm_regime", f"{run.kind}/{k_}", info[k_])
     if info["floor"]:
-        ctx.bucket("kappa_floor_hit", f"{run.kind}/gamma={run.cfg['gamma']}", info["floor"])
+        gname = run.cfg["gamma"].split(":")[0]
+        ctx.bucket("kappa_floor_hit", f"{run.kind}/gamma={gname}", info["floor"])
+        if info.get("floor_window"):
+            ctx.bucket("kappa_floor_window_0_to_kappa", run.kind, info["floor_window"])
     tight = not (info["asym_v"] or info["asym_vt"])
     ctx.count("tight_cases" if tight else "asymptotic_cases")
     bad = None
